@@ -232,8 +232,8 @@ def pair_equal(rec, rng, cid):
     kind = ["tuple-list", "int-float", "bool-01", "dict-order",
             "segment-name", "num-samples-plateau-off",
             "range-lower-plateau-on", "two-objects", "params-copy",
-            "params-route", "params-route", "neg-zero"][
-        int(rng.integers(12))]
+            "params-route", "params-route", "neg-zero", "numpy-scalars"][
+        int(rng.integers(13))]
     a, b = dict(ctx), dict(ctx)
     if kind == "tuple-list":
         b["range_x"] = tuple(ctx["range_x"])
@@ -276,6 +276,20 @@ def pair_equal(rec, rng, cid):
         p["contact_point"].value = 1.5e-7
         a["params_initial"] = p
         b["params_initial"] = copy.deepcopy(p)
+    elif kind == "numpy-scalars":
+        # the same numbers as NumPy scalars (e.g. taken from an array) and
+        # as plain Python numbers
+        a["weight_cp"], b["weight_cp"] = np.float64(2e-6), 2e-6
+        a["gcf_k"], b["gcf_k"] = np.float64(ctx.get("gcf_k", 1.0)), \
+            float(ctx.get("gcf_k", 1.0))
+        a["range_x"] = [np.float64(ctx["range_x"][0]),
+                        np.float64(ctx["range_x"][1])]
+        b["range_x"] = [float(ctx["range_x"][0]), float(ctx["range_x"][1])]
+        if "optimal_fit_edelta" in ctx:
+            a["optimal_fit_edelta"], b["optimal_fit_edelta"] = \
+                np.bool_(True), True
+        # (np.int64 is not offered: obj2bytes has no rule for NumPy
+        #  integers and raises - an input error, not a hash property)
     elif kind == "neg-zero":
         # -0.0 == 0.0: the same value in another representation
         which = int(rng.integers(3))
